@@ -205,6 +205,8 @@ def generate(seed, tier):
                 oset = {tt(t) for t in lst}
             elif ch == "twin":
                 op["other"] = "@twin"  # a second Graph object on G's store with G's identifier
+                if store != "memory" and g.chance(0.5):
+                    op["other"] = "@alias"  # (a store without contexts: a handle with any other identifier shows the same triples)
                 oset = set(model["G"])
             elif ch == "graph":
                 op["other"] = g.choice(["H1", "H2"])
@@ -518,9 +520,9 @@ def execute(trace, ctx):
             model[name].add(kk)
             note_added(name, {kk})
         elif k in ("iadd", "isub"):
-            if op["other"] in ("G", "@twin"):
+            if op["other"] in ("G", "@twin", "@alias"):
                 ctx.probe("iadd-self" if k == "iadd" else "isub-self")
-                oth, oset = (gs["G"] if op["other"] == "G" else twin_of(gs["G"])), set(model["G"])
+                oth, oset = (gs["G"] if op["other"] == "G" else twin_of(gs["G"]) if op["other"] == "@twin" else Graph(gs["G"].store, URIRef(EX + "another-name"))), set(model["G"])
             elif isinstance(op["other"], dict) and "foreign" in op["other"]:
                 ctx.probe("operand-same-identifier-other-store")
                 oth = Graph(Memory(), URIRef(str(gs["G"].identifier)))
